@@ -62,6 +62,11 @@ def model(ex, path, cal, recv, args, node, st):
             m = _re.match(r"\[u8; (\d+)\]", str(buf[2][1][1]))
             n = int(m.group(1)) if m else None
         sym = ("sym", next(ex.counter), "bytes_read")
+        fb = getattr(ex, "first_byte", None)
+        marker = ("marker", "first read done")
+        if fb is not None and n == 1 and not st.facts.get(marker):
+            sym = app("array", lit(fb))          # the analysis fixes the tag byte: everything that depends on it is decided
+        st.facts[marker] = True
         r = ("fall", next(ex.counter), "result", "read_exact")
         ex.effect(st, "read", (allargs[0], lit(n), sym), result=r, node=node)
         # the buffer local now holds the bytes read
@@ -173,6 +178,12 @@ def model(ex, path, cal, recv, args, node, st):
     if name in ("to_le_bytes", "to_be_bytes", "to_ne_bytes") and recv is not None:
         return _val(st, app(name, lit(cal.get("impl_self") or cal.get("inst_self") or _prim_of(d)), recv))
     if name in ("from_le_bytes", "from_be_bytes", "from_ne_bytes"):
+        ce = _concrete_elems(a0) if a0 is not None and a0[0] == "app" else None
+        if ce is not None and ce and all(is_lit(x) and isinstance(x[1], int) for x in ce):
+            bs = bytes(x[1] & 0xFF for x in ce)
+            ty = cal.get("impl_self") or cal.get("inst_self") or _prim_of(d)
+            val = int.from_bytes(bs, "big" if name == "from_be_bytes" else "little", signed=str(ty).startswith("i"))
+            return _val(st, lit(val))
         return _val(st, app(name, lit(cal.get("impl_self") or cal.get("inst_self") or _prim_of(d)), a0))
     if name.startswith(("wrapping_", "checked_", "saturating_", "overflowing_")) or name in ("rem_euclid", "div_euclid", "pow", "abs"):
         return _val(st, app(name, *allargs)) if not name.startswith("checked_") else None
